@@ -1,15 +1,18 @@
 #!/bin/sh
-# Runs every seeded change (seeded/<id>/patch.diff) against the check of its own property and writes
-# seeded/MATRIX.txt.  /repo is patched and restored for each one; do not run other checks meanwhile.
+# Runs every seeded change (seeded/<id>/patch.diff: round 1, seeded2/<id>/patch.diff: round 2) against
+# the check of its own property and writes seeded/MATRIX.txt.  /repo is patched and restored for each
+# one; do not run other checks meanwhile.
 cd /verif
 OUT=seeded/MATRIX.txt
 : > $OUT.tmp
-for d in seeded/C*; do
+for d in seeded/C* seeded2/C*; do
   id=$(basename $d)
-  git -C /repo apply /verif/$d/patch.diff || { echo "$id patch-does-not-apply" >> $OUT.tmp; continue; }
-  line=$(python3 tools/check.py $id 2>&1 | grep -E "^(OK|VIOLATION|KNOWN)" | tr '\n' ' ')
+  round=$(dirname $d)
+  git -C /repo apply /verif/$d/patch.diff || { echo "$round $id patch-does-not-apply" >> $OUT.tmp; continue; }
+  line=$(python3 tools/check.py $id 2>&1 | grep -E "^(OK|VIOLATION)" | tr '\n' ' ')
   git -C /repo checkout -- .
-  echo "$id $line" >> $OUT.tmp
+  git -C /repo clean -fdq -- src rsactor-derive 2>/dev/null
+  echo "$round $id $line" >> $OUT.tmp
 done
 python3 tools/extract_shape.py coq/Gen/Shape.v >/dev/null
 git -C /repo status --short | head -3
